@@ -85,7 +85,7 @@ def case_table(run, i):
                             "ref": "A", "alt": "C", "zygosity": 0.5, "alt_freq": baf[ok]})
         variants = VariantArray(vdf)
     purity = float(rng.choice([0.3, 0.6, 0.9])) if mode == 2 else None
-    cna = make_cna(cols, odd=(i % 3 == 1))
+    cna = make_cna(cols, odd=(i % 3 == 1), meta=("none" if i % 4 == 2 else None))     # a quarter without a metadata dict (naming styles alternate within the process)
     run.begin_case("table", i, cls=f"table:ploidy{ploidy}:{'default' if th == calling.DEFAULT_THRESHOLDS else 'custom'}:" +
                    ["nobaf", "baf", "baf+purity", "baf-variants", "nobaf"][mode])
     import cnvlib.call as C
